@@ -146,6 +146,8 @@ class Eval:
             fr = Fraction(v)
             fr2 = Fraction(repr(v))  # decimal literal as written (A2: floats are reals)
             return V(REAL, z3.RealVal(str(fr2)))
+        if isinstance(v, str):
+            return self.ex.new_sym(TU("opaque"), "str", self.st)  # strings are not interpreted
         raise Unsupported(f"constant {v!r}")
 
     def e_Name(self, n):
@@ -423,7 +425,7 @@ class Eval:
         raise Unsupported("chain")
 
     def e_JoinedStr(self, n):
-        raise Unsupported("f-string")
+        return self.ex.new_sym(TU("opaque"), "fstr", self.st)
 
     def e_ListComp(self, n):
         return self.ex.listcomp(self, n)
